@@ -2,6 +2,7 @@
 # builds ./modelrun from the extracted model (coq/Extract/model.ml{,i})
 set -e
 cd "$(dirname "$0")"
+rm -f modelrun
 cp ../coq/Extract/model.ml ../coq/Extract/model.mli .
 ocamlfind ocamlopt -O2 -w -a -package str model.mli model.ml entries.ml driver.ml -o modelrun 2>&1 | grep -v "options -O2 is only relevant" || true
 test -x modelrun
